@@ -8,7 +8,9 @@ byte-at-a-time access addresses.
 from symx.runner import Case
 from .common import *
 
-ORACLE = ('byte j of a block starting at addr must be mapped by the block walk to the same (page, row, '
+ORACLE = ('the single-byte decoder and its validity test are compared with an independent decoder '
+          'written from the mode table row (page size, bank interleave, bytes per row, planar or packed); '
+          'byte j of a block starting at addr must be mapped by the block walk to the same (page, row, '
           'first pixel) that the single-byte address decoder _get_coords gives for addr + j, and must be '
           'skipped exactly when that decoder says the byte backs no pixel')
 BOUNDS = {'modes': 'every graphics mode row of modes._MODE_INFO with a CGA- or EGA-class memory mapper',
@@ -79,6 +81,49 @@ def body_walk(h):
     return [[pg, x, y, ofs, length] for (pg, x, y, ofs, length) in segs]
 
 
+def _reference(info, vmem, a_rel):
+    """Independent decoder written from the mode table row: (page, x, y, valid) of a byte offset
+    relative to the mapper's segment base."""
+    w, hgt, bpp = info['width'], info['height'], info['bitsperpixel']
+    il, bank = info['interleave_times'], info['bank_size']
+    planar = info['layout'].__name__ == 'EGAMode'
+    page_size = il * bank
+    num_pages = min(info['max_pages'], vmem // page_size) if info['max_pages'] else vmem // page_size
+    page = a_rel // page_size
+    off = a_rel % page_size
+    if planar:
+        row_bytes = w // 8
+        y = off // row_bytes
+        x = (off % row_bytes) * 8
+    else:
+        row_bytes = w * bpp // 8
+        b = off // bank
+        inb = off % bank
+        y = b + il * (inb // row_bytes)
+        x = (inb % row_bytes) * 8 // bpp
+    valid = s_and(page >= 0, page < num_pages, x >= 0, x < w, y >= 0, y < hgt)
+    return page, x, y, valid
+
+
+def body_reference(h):
+    """the real byte decoder and validity test against the independent reference"""
+    M, modes = _modes(h)
+    cls, d = modes[h.params['mode']]
+    info = dict(M._MODE_INFO[h.params['mode']])
+    mode = cls(name=h.params['mode'], video_mem_size=h.params['vmem'], **d)
+    mm = mode.memorymap
+    base = mm._video_segment * 0x10
+    segs = {'CGAMode': 0xb800, 'EGAMode': 0xa000}
+    h.require('segment-base', base == segs[info['layout'].__name__] * 16)
+    a = h.int('a', base - 64, base + 0x20000 + 64)
+    pa = mm._get_coords(a)
+    ok = mm._coord_ok(*pa)
+    page, x, y, valid = _reference(info, h.params['vmem'], a - base)
+    h.require('validity-matches-reference', s_iff(ok, valid))
+    h.require('coordinates-match-reference', s_implies(valid, s_and(pa[0] == page, pa[1] == x, pa[2] == y)))
+    return [list(pa), bool(ok)]
+
+
 def body_coords(h):
     """the byte decoder itself: consecutive bytes of one row are consecutive pixels groups, rows of a
     bank are interleaved as the mode table says, and decoding is injective on backed bytes"""
@@ -105,5 +150,7 @@ def cases(tier):
             cs.append(Case('walk-' + tag, body_walk, backend='INT', params={'mode': name, 'vmem': vmem},
                            timeout_s=1500, max_decisions=400))
             cs.append(Case('decode-' + tag, body_coords, backend='INT',
+                           params={'mode': name, 'vmem': vmem}))
+            cs.append(Case('reference-' + tag, body_reference, backend='INT',
                            params={'mode': name, 'vmem': vmem}))
     return cs
